@@ -34,7 +34,7 @@ from concurrent.futures import ThreadPoolExecutor
 import vflib
 
 PID = "C09"
-CORPUS = os.path.join(vflib.VERIF, "corpus", "c09")
+CORPUS = os.environ.get("C09_CORPUS") or os.path.join(vflib.VERIF, "corpus", "c09")    # (override: development experiments only)
 SRC = "checks/c09_parsers.c"
 DEPS = ["checks/c09_mutator.c", "checks/c09_fixed.h"]
 
